@@ -417,7 +417,8 @@ static void c10_domain(Ctx& c, std::vector<long long>* I, std::vector<i128>* C) 
   for (int d = -3; d <= 3; ++d) D.push_back(d);
   for (int j = 1; j <= 2; ++j) for (int s = -1; s <= 1; s += 2) for (int e = -1; e <= 1; ++e) D.push_back(s * (86400 * j) + e);
   for (i128 e : E) for (i128 d : D) v.push_back(e + d);
-  const long long stride = g_thorough ? 7 : 3599;
+  // thorough: every 7th second of the last/first two days for a quarter of the zones, every 97th for the rest
+  const long long stride = g_thorough ? ((std::hash<std::string>()(c.z->id) % 4 == 0) ? 7 : 97) : 3599;
   for (long long s = 0; s <= 2 * 86400; s += stride) { v.push_back(IMAX - s); v.push_back(IMIN + s); }
   std::sort(v.begin(), v.end());
   v.erase(std::unique(v.begin(), v.end()), v.end());
